@@ -1,5 +1,7 @@
 import SlogModel.Lemmas.Buffer
 import SlogModel.Lemmas.BufferData
+import SlogModel.Lemmas.BufferSpace
+import SlogModel.Lemmas.BufferMemory
 import SlogModel.Gen.Facts
 
 /-!
@@ -25,8 +27,16 @@ import SlogModel.Gen.Facts
   * `C03_delivered_unchanged` : every chunk the consumer receives is byte-for-byte a chunk that was
       accepted or recovered; `C03_files_hold_accepted_bytes` : every file named by an accepted id holds
       the accepted bytes (so what is kept for the next start is unchanged too).
-  Not yet theorems (checked by the correspondence and the harness oracle only): the space bound on the
-  directory, the memory bound at quiescent points.
+  * `C03_space_bound` : the bytes of the files in the directory never exceed the
+      `persistent_chunk_bytes` gauge, which never exceeds the size limit (or what was found at the
+      start, when that was more); `C03_space_within_limit` : a directory that starts within the limit
+      stays within it.
+  * `C03_memory_bound` : at every quiescent point every queued entry is unloaded, so the loaded chunks
+      inside the buffer are the window (≤ `memCap`) and at most one in the feeder's hand.
+  The model writes a file atomically with its quota check (one feeder, one `Accept` caller, one
+  consumer at a time); the slack "plus the chunks being saved concurrently at shutdown" and the
+  loaded chunks in the input channel between quiescent points are outside it (correspondence and
+  harness oracle only).
 -/
 
 open Buffer
@@ -101,6 +111,33 @@ theorem C03_window_bound (cfg : Cfg) (disk : List (Nat × Bytes)) (ops : List Op
     (h : run (recover cfg disk) ops = some s) : s.outW.length ≤ s.cfg.memCap :=
   run_win ops _ s h (recover_win cfg disk)
 
+/-- **C03 (space bound).** With a usable directory, under every legal history: the files of the
+queue directory hold at most `persistent_chunk_bytes` bytes, and that gauge never exceeds the
+configured limit — or the bytes found at the start of the generation, when those were more. -/
+theorem C03_space_bound (cfg : Cfg) (disk : List (Nat × Bytes)) (hd : (disk.map (·.1)).Nodup) (hdir : cfg.hasDir = true)
+    (ops : List Op) (s : St) (h : run (recover cfg disk) ops = some s) (hl : Legal (recover cfg disk) ops) :
+    (diskBytes s.disk : Int) ≤ s.c.gBytes ∧ s.c.gBytes ≤ max (cfg.maxBytes : Int) (diskBytes disk) := by
+  obtain ⟨a1, a2, _, _⟩ := recover_conserved cfg disk hd
+  have := run_sp _ ops _ s h ⟨a1, a2⟩ hl (recover_dinv cfg disk hd) (recover_sp cfg disk hdir)
+  exact ⟨this.sb, this.qb⟩
+
+/-- a directory that starts within the limit stays within it -/
+theorem C03_space_within_limit (cfg : Cfg) (disk : List (Nat × Bytes)) (hd : (disk.map (·.1)).Nodup) (hdir : cfg.hasDir = true)
+    (h0 : diskBytes disk ≤ cfg.maxBytes)
+    (ops : List Op) (s : St) (h : run (recover cfg disk) ops = some s) (hl : Legal (recover cfg disk) ops) :
+    diskBytes s.disk ≤ cfg.maxBytes := by
+  obtain ⟨a, b⟩ := C03_space_bound cfg disk hd hdir ops s h hl
+  omega
+
+/-- **C03 (memory bound at quiescent points).** Every queued entry is unloaded; the feeder holds a
+loaded chunk in hand only while the window is full; the window holds at most `memCap` chunks. -/
+theorem C03_memory_bound (cfg : Cfg) (disk : List (Nat × Bytes)) (ops : List Op) (s : St)
+    (h : run (recover cfg disk) ops = some s) :
+    (∀ e ∈ s.inQ, e.data = none) ∧ (s.hand ≠ none → s.outW.length = s.cfg.memCap) ∧ s.outW.length ≤ s.cfg.memCap := by
+  have hm := run_minv ops _ s h (recover_minv cfg disk)
+  have hw := C03_window_bound cfg disk ops s h
+  exact ⟨hm.unl, fun hn => by have := hm.quiet.2 hn; omega, hw⟩
+
 /-- **C03 (recovered first).** The acceptance order of a generation starts with recovered files — a
 subsequence, in name order, of the files found — before anything accepted later. -/
 theorem C03_recovered_first (cfg : Cfg) (disk : List (Nat × Bytes)) :
@@ -139,6 +176,9 @@ def demoCfg : Cfg := { memCap := 2, queueCap := 1, maxBytes := 3, hasDir := true
 
 example : (run { cfg := demoCfg } demoOps).map (fun s => (s.confirmedG, s.droppedG, s.keptG, s.disk.map (·.1), s.c.gBytes)) =
     some ([1], [4], [3, 5, 2], [2, 3, 5], 3) := by decide
+
+/-- the demo run ends with 3 bytes of files, exactly the limit: the bound is tight -/
+example : (run { cfg := demoCfg } demoOps).map (fun s => diskBytes s.disk) = some 3 := by decide
 
 /-! ### fact obligations (Tie B) -/
 
